@@ -1421,3 +1421,117 @@ def rule_accumulator_wrap(ctx, m, files=("Digit.hpp",), rid="ACC-wrap"):
                     f.text(cond)[:50], f.text(n["ch"][0]), "10" if "32" in (f.nodes[f.strip(n["ch"][0])].get("t") or "") else "about 20")
             r.ob(f.sig if len(m.fns(f.q, required=False)) > 1 else f.q, f.text(x)[:60], ok, why, f.loc(x))
     return r
+
+
+def rule_flush_first(ctx, m, fq, rid="PR-flush"):
+    """PR-flush: the escapers copy their input in slices: a scan cursor runs ahead, a second cursor remembers how far the input has
+    been written, and every special unit first flushes the pending slice  Write(in + flushed, scan - flushed)  and then emits its
+    replacement and moves the flushed cursor past the unit.  Typestate per loop iteration on the CFG: (a) no other output to the
+    stream precedes the flush in an iteration that produces output (else the replacement comes out BEFORE the text in front of it);
+    (b) an iteration that flushed also moves the flushed cursor before it ends (else the slice is written twice)."""
+    r = Rule(rid, "in the escaper's loop every replacement is emitted after the pending slice was flushed, and the flushed cursor moves on", floor=2)
+    fs = [f for f in m.fns(fq, required=False) if not f.inst and f.cfg]
+    if not fs:
+        r.broke("%s not found" % fq)
+        return r
+    f = fs[0]
+    ctx.note_fn(f)
+    ptr_params = set(p["n"] for p in f.params if p.get("ptr"))
+    stream_params = set(p["n"] for p in f.params if p.get("ref") and not p.get("pconst") and not p.get("ptr") and p.get("tk") not in ("uint", "sint", "bool", "char"))
+    if not ptr_params or not stream_params:
+        r.broke("%s: expected an input pointer and an output stream parameter" % fq)
+        return r
+    blocks = f.blocks()
+
+    def is_flush(x):
+        """Write(in + A, B - A): returns the name of A"""
+        n = f.nodes[x]
+        if n["k"] not in ("CallExpr", "CXXMemberCallExpr") or f.call_simple_name(x) != "Write":
+            return None
+        rc = f.call_receiver(x)
+        if rc is None or f.nodes[f.strip(rc)].get("n") not in stream_params:
+            return None
+        a = f.call_args(x)
+        if len(a) != 2:
+            return None
+        a0, a1 = f.nodes[f.strip_casts(a[0])], f.nodes[f.strip_casts(a[1])]
+        if a0["k"] == "BinaryOperator" and a0["op"] == "+" and a1["k"] == "BinaryOperator" and a1["op"] == "-":
+            base = f.nodes[f.strip_casts(a0["ch"][0])].get("n")
+            A = f.nodes[f.strip_casts(a0["ch"][1])].get("n")
+            A2 = f.nodes[f.strip_casts(a1["ch"][1])].get("n")
+            if base in ptr_params and A and A == A2:
+                return A
+        return None
+
+    def is_output(x):
+        n = f.nodes[x]
+        if n["k"] in ("CallExpr", "CXXMemberCallExpr"):
+            rc = f.call_receiver(x)
+            return rc is not None and f.nodes[f.strip(rc)].get("n") in stream_params and (f.call_simple_name(x) or "") in ("Write", "Append", "operator+=", "operator<<")
+        if n["k"] in ("CompoundAssignOperator", "BinaryOperator", "CXXOperatorCallExpr") and n.get("op") in ("+=", "<<"):
+            lhs = n["ch"][0] if n["k"] != "CXXOperatorCallExpr" else f.call_args(x)[0]
+            return f.nodes[f.strip(lhs)].get("n") in stream_params
+        return False
+    loops = [w for w in astq.nodes_of(f, ("WhileStmt", "DoStmt", "ForStmt")) if any(is_flush(y) for y in f.walk(f.nodes[w].get("body", w)))]
+    if not loops:
+        r.broke("%s: no loop with a slice flush Write(in + flushed, scan - flushed) found" % fq)
+        return r
+    for w in loops:
+        body = f.nodes[w].get("body", -1)
+        region = set(f.walk(body))
+        flushed_var = None
+        for y in region:
+            A = is_flush(y)
+            if A:
+                flushed_var = A
+        lt = [b for b in f.cfg["blocks"] if b.get("looptarget") == w]
+        in_region = set(b["id"] for b in f.cfg["blocks"] if any(isinstance(e.get("n"), int) and not e.get("k") and e["n"] in region for e in b["el"]))
+        head = lt[0]["id"] if lt else None
+        # entries: successors of the loop condition's true edge
+        cond = f.nodes[w].get("cond", -1)
+        entries = []
+        for b in f.cfg["blocks"]:
+            if "cond" in b and cond is not None and cond >= 0 and f.strip(b["cond"]) in set(f.walk(cond)) | {f.strip(cond)}:
+                for (s_, k_, p_) in dataflow.successors(f, b):
+                    if k_ == "true" and s_ in in_region:
+                        entries.append(s_)
+        if not entries:
+            r.broke("%s: the body of the loop at %s was not located in the CFG" % (fq, f.loc(w)))
+            continue
+        bad_a, bad_b = None, None
+        seen = set()
+        work = [(e_, (False, False)) for e_ in entries]
+        while work:
+            bid, st = work.pop()
+            if (bid, st) in seen:
+                continue
+            seen.add((bid, st))
+            flushed, moved = st
+            for e in blocks[bid]["el"]:
+                x = e.get("n")
+                if not isinstance(x, int) or e.get("k") or x not in region:
+                    continue
+                n = f.nodes[x]
+                if is_flush(x):
+                    flushed = True
+                    moved = False
+                elif is_output(x) and not flushed and bad_a is None:
+                    bad_a = x
+                tgt = None
+                if n["k"] == "UnaryOperator" and n["op"] in ("++", "--"):
+                    tgt = n["ch"][0]
+                elif n["k"] == "CompoundAssignOperator" or (n["k"] == "BinaryOperator" and n["op"] == "="):
+                    tgt = n["ch"][0]
+                if tgt is not None and f.nodes[f.strip(tgt)].get("n") == flushed_var and flushed:
+                    moved = True
+            for (s_, k_, p_) in dataflow.successors(f, blocks[bid]):
+                if s_ in in_region:
+                    work.append((s_, (flushed, moved)))
+                elif flushed and not moved and bad_b is None:
+                    bad_b = bid
+        r.ob(f.q, "flush before replacement", bad_a is None, "every output of an iteration comes after its slice flush" if bad_a is None else
+             "`%s` writes to the stream before the pending slice was flushed in that iteration: the replacement comes out in front of the text that precedes it" % f.text(bad_a)[:50],
+             f.loc(bad_a) if bad_a is not None else f.loc(w))
+        r.ob(f.q, "flushed cursor moves on", bad_b is None, "every iteration that flushed moves `%s` before it ends" % flushed_var if bad_b is None else
+             "an iteration flushes the slice and ends without moving `%s`: the same text is written again by the next flush" % flushed_var, f.loc(w))
+    return r
